@@ -391,7 +391,8 @@ def make_kinds(thorough: bool):
         # DDMM.MMMM / DDDMM.MMMM, NMEA boundaries, at most 4 decimals (exactly representable in the field)
         "lat": [4718.8051, 0.0, 0.0001, 1.5, 8959.9999, 9000.0],
         "lon": [1854.4387, 0.0, 0.0001, 12345.6789, 17959.9999, 18000.0],
-        "speed": [0.1, 0.0, 0.5, 5.0, 9.9, 10.0, 12.5, 99.9, 100.0, 999.0],
+        # incl. values just below each change of digit count (rounding a formatted value must never widen the 3-character field)
+        "speed": [0.1, 0.0, 0.5, 5.0, 9.9, 10.0, 12.5, 99.9, 100.0, 999.0, 9.94, 9.95, 9.99, 9.999, 0.94, 0.95, 0.99, 99.95, 99.99, 999.4],
         "direction": [121, 0, 1, 9, 10, 99, 100, 359],
         "time": ["183648", "none", "000000", "235959"],
         "date": ["261015", "none", "010100", "311299", "290224"],
@@ -821,7 +822,8 @@ def field_equal(name, want, got):
     if name == "gpsdata.speed":
         try:
             if want < SPEED_TOL_FROM:
-                return abs(float(got) - want) < 1e-9
+                # one decimal survives exactly; more decimals are cut to the field's 0.1 kn resolution
+                return abs(float(got) - want) < (1e-9 if round(want, 1) == want else 0.1)
             return abs(float(got) - want) < 1.0
         except Exception:
             return False
@@ -1481,7 +1483,7 @@ def run(only=None):
         "request_ids": "32-bit boundary/walking alphabet",
         "text": "'', ASCII, BMP, astral (surrogate pairs), 200 characters",
         "option_data": "None, 0, 1, 3, 255 bytes",
-        "gps": "validity 2 x hemispheres 4 x lat 6 x lon 6 x speed 10 x direction 8 x time 4 x date 5 (thorough: full product at both bases)",
+        "gps": "validity 2 x hemispheres 4 x lat 6 x lon 6 x speed 20 x direction 8 x time 4 x date 5 (thorough: full product at both bases)",
         "combination": "pairs of fields over two bases + full product where small; wider interactions (3+ fields at non-base values) only inside the product spaces",
         "hstrp": "0..3 options",
         "not_covered": "opcodes without a get_payload/from_bytes branch (raise ValueError by design); HRNP fragmentation; values outside the alphabets",
